@@ -1176,22 +1176,30 @@ func classifyMapRange(p *packages.Package, fd *ast.FuncDecl, rs *ast.RangeStmt) 
 
 // sortedNext: after the range statement, the first statement mentioning obj is a sort call on it.
 func sortedNext(info *types.Info, fd *ast.FuncDecl, rs *ast.RangeStmt, obj types.Object) bool {
-	var block *ast.BlockStmt
+	// the statement list that holds the loop: a block, or the body of a case clause (inlined helpers live in one)
+	var list []ast.Stmt
 	ast.Inspect(fd.Body, func(x ast.Node) bool {
-		if b, ok := x.(*ast.BlockStmt); ok {
-			for _, s := range b.List {
-				if s == ast.Stmt(rs) {
-					block = b
-				}
+		var l []ast.Stmt
+		switch b := x.(type) {
+		case *ast.BlockStmt:
+			l = b.List
+		case *ast.CaseClause:
+			l = b.Body
+		case *ast.CommClause:
+			l = b.Body
+		}
+		for _, s := range l {
+			if s == ast.Stmt(rs) {
+				list = l
 			}
 		}
 		return true
 	})
-	if block == nil {
+	if list == nil {
 		return false
 	}
 	after := false
-	for _, s := range block.List {
+	for _, s := range list {
 		if s == ast.Stmt(rs) {
 			after = true
 			continue
